@@ -530,3 +530,24 @@ package objecttree
 //@ func (*storage).GetAfterOrder
 //@   requires s != nil && s.changesColl != nil
 //@   ensures [streams_in_stored_order] qrySortN == 1 && qrySortKey == OrderKey
+
+// ---------------------------------------------------------------------------------------------
+// C09: running heads of a batch. Every stored change the iterator knows (sent in this batch, or marked
+// as already present on the requester) that is passed over becomes a head of the batch, replacing its
+// parents: after the visitor returned "continue" for a known change, the change's id is among the
+// batch heads. A change that does not fit is not sent and stops the batch.
+//@ package github.com/anyproto/any-sync/util/slice
+//@ func DiscardFromSlice
+//@   modifies object arg0 kinds string
+//@   ensures len(result) <= len(arg0) && baseof(result) == baseof(arg0)
+//@ package github.com/anyproto/any-sync/commonspace/object/tree/objecttree
+//@ func (*loadIterator).NextBatch$1
+//@   requires l != nil && l.cache != nil
+//@   ensures [passed_known_change_becomes_a_head] shouldContinue && err == nil && old(c.Id in l.cache) ==> (exists k int :: 0 <= k && k < len(batch.Heads) && batch.Heads[k] == c.Id)
+//@   ensures [unknown_change_is_skipped] !old(c.Id in l.cache) ==> shouldContinue && err == nil && len(batch.Batch) == old(len(batch.Batch))
+//@   ensures [batch_stops_when_full] !shouldContinue ==> err == nil && len(batch.Batch) == old(len(batch.Batch)) && len(batch.Batch) != 0
+//@   ensures [one_change_per_call] len(batch.Batch) > old(len(batch.Batch)) ==> len(batch.Batch) == old(len(batch.Batch)) + 1
+//@   ensures [within_limit_unless_first] len(batch.Batch) > old(len(batch.Batch)) ==> old(curSize) + old(l.cache[c.Id].size) < old(maxSize) || old(len(batch.Batch)) == 0
+//@   ensures [size_accounted] len(batch.Batch) > old(len(batch.Batch)) ==> curSize == old(curSize) + old(l.cache[c.Id].size)
+//@   ensures [sends_a_copy_under_the_stored_id] len(batch.Batch) > old(len(batch.Batch)) ==> batch.Batch[len(batch.Batch) - 1] != nil && batch.Batch[len(batch.Batch) - 1].Id == c.Id && len(batch.Batch[len(batch.Batch) - 1].RawChange) == len(c.RawChange) && fresh(batch.Batch[len(batch.Batch) - 1].RawChange) && !old(l.cache[c.Id].removed)
+//@   ensures [marked_changes_are_not_sent] old(c.Id in l.cache) && old(l.cache[c.Id].removed) ==> len(batch.Batch) == old(len(batch.Batch))
